@@ -20,7 +20,7 @@
     item of [items] for the value [a] with the formatter and runs [unambiguous_ws_b]. *)
 From Coq Require Import ZArith List Bool.
 From V Require Import Base.Int Base.IO Base.Utf8 Model.Scan Model.Items Model.Parse
-  Proofs.Utf8 Proofs.Scan Proofs.C13 Proofs.C13Reads Proofs.C13Fmt Proofs.C13Examples Proofs.C13Names Proofs.C13Digits Proofs.C13Safe Proofs.C13Time.
+  Proofs.Utf8 Proofs.Scan Proofs.C13 Proofs.C13Reads Proofs.C13Fmt Proofs.C13Examples Proofs.C13Names Proofs.C13Digits Proofs.C13Safe Proofs.C13Time Proofs.C13OneWay.
 From V Require Model.Parsed Model.Format Model.Strftime Model.Time Spec.StrftimeDoc.
 Import ListNotations.
 Open Scope Z_scope.
@@ -280,6 +280,44 @@ Theorem C13_family_never_panics_partial : forall l tail ws p, unambiguous_b l ta
   parse_and_remainder p (text_of l ++ tail) (map fst l) <> OutOfFuel.
 Proof. exact unambiguous_never_panics. Qed.
 Print Assumptions C13_family_never_panics_partial.
+
+(** ** the one-directional items (exercised separately, as the property's quantifier says):
+    %Z is print-only (the reader skips the word, sets no field), %::z / %:::z are print-only (the
+    seconds are left in the input; hours alone are refused), %#z is read-only (never formats; reads
+    hours without minutes) *)
+Theorem C13_timezone_name_print_only : forall relaxed p word rest,
+  Forall (fun c => 0 <= c <= 127 /\ is_whitespace c = false) word ->
+  first_cp_fails (fun c => negb (is_whitespace c)) rest ->
+  parse_item relaxed p (word ++ rest) (IFixed F_TimezoneName) = pok (p, rest).
+Proof. exact timezone_name_skips. Qed.
+Print Assumptions C13_timezone_name_print_only.
+
+Theorem C13_double_colon_offset_print_only : forall p sg h1 h2 m1 m2 s1 s2 rest,
+  (sg = 43 \/ sg = 45) -> is_ascii_digit h1 = true -> is_ascii_digit h2 = true ->
+  48 <= m1 <= 53 -> is_ascii_digit m2 = true -> is_ascii_digit s1 = true -> is_ascii_digit s2 = true ->
+  utf8_valid rest = true ->
+  parse_tz_item p ([sg; h1; h2; 58; m1; m2; 58; s1; s2] ++ rest) (fixed_idx F_TimezoneOffsetDoubleColon) =
+  (let+ p' := setq (Model.Parsed.set_offset p (off_value (sg =? 45) h1 h2 m1 m2)) in pok (p', 58 :: s1 :: s2 :: rest)).
+Proof. exact double_colon_offset_leaves_seconds. Qed.
+Print Assumptions C13_double_colon_offset_print_only.
+
+Theorem C13_triple_colon_offset_print_only : forall p sg h1 h2,
+  (sg = 43 \/ sg = 45) -> is_ascii_digit h1 = true -> is_ascii_digit h2 = true ->
+  parse_tz_item p [sg; h1; h2] (fixed_idx F_TimezoneOffsetTripleColon) = perr_ TooShort.
+Proof. exact triple_colon_offset_refused. Qed.
+Print Assumptions C13_triple_colon_offset_print_only.
+
+Theorem C13_permissive_offset_read_only : forall a,
+  Model.Format.format_item a (IFixed (F_Internal I_TimezoneOffsetPermissive)) = Model.Format.ferr.
+Proof. exact permissive_offset_not_printed. Qed.
+Print Assumptions C13_permissive_offset_read_only.
+
+Theorem C13_permissive_offset_reads_hours : forall p sg h1 h2,
+  (sg = 43 \/ sg = 45) -> is_ascii_digit h1 = true -> is_ascii_digit h2 = true ->
+  parse_tz_item p [sg; h1; h2] (fixed_idx (F_Internal I_TimezoneOffsetPermissive)) =
+  (let+ p' := setq (Model.Parsed.set_offset p (off_value (sg =? 45) h1 h2 48 48)) in pok (p', [])).
+Proof. exact permissive_offset_reads_hours. Qed.
+Print Assumptions C13_permissive_offset_reads_hours.
 
 (** ** hypotheses are inhabited: members certified by computation, non-members rejected, complete
     round trips (formatter, reader, resolution) on boundary values incl. negative and six-digit
